@@ -38,6 +38,9 @@ pub struct Scenario<S, SP: StateSpace<StateType = S>> {
     pub trace: Option<Arc<std::sync::Mutex<(u64, u64)>>>,
     /// flattening of a state into the float list the Python side sees (py mirror scenarios)
     pub flat: Option<Arc<dyn Fn(&S) -> Vec<f64>>>,
+    /// synthetic spaces: semantic check of one edge a -- b against checker v (index): Some(reason) if the edge is
+    /// longer than the resolution and passes, in both directions, through a state the checker rejects
+    pub edge_oracle: Option<Arc<dyn Fn(usize, &S, &S) -> Option<String>>>,
 }
 
 fn u01(v: u64) -> f64 {
@@ -94,6 +97,14 @@ pub fn prm_script(r: &mut Sm, misuse: bool, budgets: &[u64]) -> Vec<Call> {
             s.push(Call::Construct(*r.pick(budgets)));
             s.push(Call::Solve(if r.chance(0.2) { r.below(4) } else { 100000 }));
         }
+        // a second setup (new problem and / or new checker, same space object) on a planner that already holds a roadmap
+        if r.chance(0.4) {
+            s.push(Call::Setup(r.below(2) as usize, r.below(2) as usize));
+            if r.chance(0.7) {
+                s.push(Call::Construct(*r.pick(budgets)));
+            }
+            s.push(Call::Solve(100000));
+        }
     }
     s
 }
@@ -115,10 +126,12 @@ pub struct GenOpts {
     pub free: bool,
     /// real-clock runs (C06): no iteration budget, real timeouts, feasible and infeasible worlds
     pub timing: bool,
+    /// dense RRT* stress (C17): long runs on small adversarial tables, everything within the radius
+    pub dense: bool,
 }
 
 pub fn build_table(r: &mut Sm, o: &GenOpts) -> Scenario<TState, TableSpace> {
-    let k = 3 + r.below(4) as usize;
+    let k = if o.dense { 5 + r.below(5) as usize } else { 3 + r.below(4) as usize };
     let vals = [0.0, 0.0, 0.5, 1.0, 1.0, 1.0, 2.0, 2.0, 3.0, 0.25];
     let mut dist = vec![vec![0.0; k]; k];
     let symmetric = r.chance(0.8);
@@ -151,7 +164,21 @@ pub fn build_table(r: &mut Sm, o: &GenOpts) -> Scenario<TState, TableSpace> {
             };
         }
     }
-    let lvs = *r.pick(&[2.0, 5.0, 10.0, 10.0, 40.0]);
+    let mut lvs = *r.pick(&[2.0, 5.0, 10.0, 10.0, 40.0]);
+    // dense mode: a designated "wall" state sits in the middle of many pairs, in BOTH directions, so that
+    // motions are blocked symmetrically (as in a real space) and often
+    let wall_state: Option<u32> = if o.dense && r.chance(0.7) { Some((k - 1) as u32) } else { None };
+    if let Some(w) = wall_state {
+        lvs = *r.pick(&[1.0, 2.0, 2.0]);
+        for i in 0..k {
+            for j in (i + 1)..k {
+                if r.chance(0.5) {
+                    mid[i][j] = w;
+                    mid[j][i] = w;
+                }
+            }
+        }
+    }
     let space = TableSpace {
         k,
         dist: dist.clone(),
@@ -163,7 +190,9 @@ pub fn build_table(r: &mut Sm, o: &GenOpts) -> Scenario<TState, TableSpace> {
     // validity checkers
     let mut valids = vec![];
     for _ in 0..2 {
-        let v: Vec<bool> = (0..k).map(|i| o.free || if i == 0 { r.chance(0.92) } else { r.chance(0.75) }).collect();
+        let v: Vec<bool> = (0..k)
+            .map(|i| if Some(i as u32) == wall_state { false } else { o.free || if i == 0 { r.chance(0.92) } else { r.chance(if o.dense { 0.9 } else { 0.75 }) } })
+            .collect();
         valids.push(v);
     }
     let checkers: Vec<Arc<LogChecker<TState>>> = valids
@@ -183,6 +212,9 @@ pub fn build_table(r: &mut Sm, o: &GenOpts) -> Scenario<TState, TableSpace> {
         let mut gset: Vec<u32> = (0..k as u32).filter(|_| r.chance(0.3)).collect();
         if gset.is_empty() && r.chance(0.9) {
             gset.push(r.below(k as u64) as u32);
+        }
+        if o.dense && r.chance(0.75) {
+            gset.clear(); // no goal: the tree keeps growing and rewiring until the budget ends
         }
         let start = if pi == 0 { 0 } else { r.below(k as u64) as u32 };
         let mut starts = vec![TState { id: start }];
@@ -233,7 +265,7 @@ pub fn build_table(r: &mut Sm, o: &GenOpts) -> Scenario<TState, TableSpace> {
     let lspace = LogSpace::new(space);
     let mut script_desc = J::Null;
     if r.chance(0.7) {
-        let n = 2 + r.below(30) as usize;
+        let n = if o.dense { 30 + r.below(60) as usize } else { 2 + r.below(30) as usize };
         let mut sc = Vec::new();
         for _ in 0..n {
             if o.faults && r.chance(0.02) {
@@ -257,20 +289,20 @@ pub fn build_table(r: &mut Sm, o: &GenOpts) -> Scenario<TState, TableSpace> {
         );
         *lspace.script.borrow_mut() = Some(sc);
     }
-    let mut bias = *r.pick(&[0.0, 0.05, 0.3, 0.5, 1.0]);
+    let mut bias = if o.dense { 0.0 } else { *r.pick(&[0.0, 0.05, 0.3, 0.5, 1.0]) };
     if o.faults && r.chance(0.06) {
         bias = *r.pick(&[-0.1, 1.5, f64::NAN, 2.0]);
         classes.push("bias_out_of_range".to_string());
     }
     let params = Params {
         kind,
-        maxd: *r.pick(&[0.5, 1.0, 1.0, 2.0, 100.0]),
+        maxd: if o.dense { *r.pick(&[2.0, 100.0, 100.0, 100.0]) } else { *r.pick(&[0.5, 1.0, 1.0, 2.0, 100.0]) },
         bias,
-        radius: *r.pick(&[0.5, 1.0, 1.5, 3.0, 100.0]),
+        radius: if o.dense { *r.pick(&[1.5, 3.0, 100.0, 100.0]) } else { *r.pick(&[0.5, 1.0, 1.5, 3.0, 100.0]) },
         seed: if r.chance(0.85) { Some(r.next() % 1000) } else { None },
         build_secs: 3600.0,
     };
-    let budgets: Vec<u64> = if o.per_iteration { vec![1] } else { vec![0, 1, 2, 3, 5, 8, 12, 20] };
+    let budgets: Vec<u64> = if o.per_iteration { vec![1] } else if o.dense { vec![15, 25, 40, 60] } else { vec![0, 1, 2, 3, 5, 8, 12, 20] };
     let mis = o.misuse && r.chance(0.5);
     let mut script = if kind == PlannerKind::Prm {
         prm_script(r, mis, &budgets)
@@ -304,7 +336,20 @@ pub fn build_table(r: &mut Sm, o: &GenOpts) -> Scenario<TState, TableSpace> {
         ("goal_sets", J::Arr(goal_sets)),
         ("uniform_script", script_desc),
     ]);
-    Scenario {
+    let (d2, m2, v2) = (dist.clone(), mid.clone(), valids.clone());
+    let edge_oracle: Arc<dyn Fn(usize, &TState, &TState) -> Option<String>> = Arc::new(move |vi, a, b| {
+        let (i, j) = (a.id as usize, b.id as usize);
+        let (dab, dba) = (d2[i][j], d2[j][i]);
+        // a segment longer than the resolution has an interior point that must have been checked: in a table space
+        // the only interior state is mid; it is enough that ONE direction is fine (edges are checked in one direction)
+        let bad = |d: f64, m: u32| d.is_finite() && d > lvs && !v2[vi][m as usize];
+        if bad(dab, m2[i][j]) && bad(dba, m2[j][i]) {
+            Some(format!("edge {i} -- {j} is longer than the resolution {lvs} (d = {dab} / {dba}) and its interior state {} / {} is rejected by the checker", m2[i][j], m2[j][i]))
+        } else {
+            None
+        }
+    });
+    let mut sc_out = Scenario {
         family: "table".into(),
         space: Arc::new(lspace),
         problems,
@@ -319,7 +364,10 @@ pub fn build_table(r: &mut Sm, o: &GenOpts) -> Scenario<TState, TableSpace> {
         keep_seed: false,
         trace: None,
         flat: None,
-    }
+        edge_oracle: None,
+    };
+    sc_out.edge_oracle = Some(edge_oracle);
+    sc_out
 }
 
 // ------------------------------------------------------------------------------------------
@@ -396,6 +444,13 @@ fn real_script(r: &mut Sm, kind: PlannerKind, o: &GenOpts) -> Vec<Call> {
         let mut s = vec![Call::Setup(0, 0), Call::Construct(10 + r.below(50)), Call::Solve(1000000)];
         if r.chance(0.4) {
             s.push(Call::SetPd(1));
+            s.push(Call::Solve(1000000));
+        }
+        if r.chance(0.35) {
+            s.push(Call::Setup(r.below(2) as usize, 1));
+            if r.chance(0.7) {
+                s.push(Call::Construct(10 + r.below(40)));
+            }
             s.push(Call::Solve(1000000));
         }
         s
@@ -567,6 +622,7 @@ where
         keep_seed: false,
         trace: None,
         flat: None,
+        edge_oracle: None,
     }
 }
 
@@ -1023,6 +1079,7 @@ where
         keep_seed: true,
         trace: Some(trace),
         flat: Some(kit.flat.clone()),
+        edge_oracle: None,
     }
 }
 
